@@ -525,6 +525,11 @@ func getObjStm(r Getter, stream *Stream, getInt getIntFn, enc *encryptInfo) (_ *
 	if err != nil {
 		return nil, err
 	}
+	defer func() {
+		if err != nil {
+			decoded.Close()
+		}
+	}()
 	s := newScanner(decoded, getInt, enc)
 
 	idx := make([]stmObj, n)
